@@ -13,6 +13,7 @@ from glotaran.model import Model
 from glotaran.model.dataset_model import get_dataset_model_model_dimension
 from glotaran.model.dataset_model import has_dataset_model_global_model
 from glotaran.project import Scheme
+from glotaran.utils import verif_trace as _vt
 
 if TYPE_CHECKING:
     from typing import Literal
@@ -356,6 +357,28 @@ class DataProviderLinked(DataProvider):
             aligned_global_axes
         )
         self._aligned_weights = self.align_weights(aligned_global_axes)
+        if _vt.ENABLED:
+            _vt.emit(
+                "aligned",
+                provider=str(id(self)),
+                labels=list(self._global_axes),
+                axes={label: [float(v) for v in axis] for label, axis in self._global_axes.items()},
+                model_sizes={label: int(axis.size) for label, axis in self._model_axes.items()},
+                tolerance=float(scheme.clp_link_tolerance),
+                method=str(scheme.clp_link_method),
+                aligned_axis=[float(v) for v in self._aligned_global_axis],
+                members=[
+                    [
+                        [label, int(index)]
+                        for label, index in zip(
+                            self._group_definitions[self._aligned_group_labels[i]],
+                            self._aligned_dataset_indices[i],
+                        )
+                    ]
+                    for i in range(self._aligned_global_axis.size)
+                ],
+                data_sizes=[int(np.asarray(d).size) for d in self._aligned_data],
+            )
 
     @staticmethod
     def align_index(
